@@ -371,6 +371,8 @@ pub fn parse_iter<'a>(
     let mut next_item = NextItem::NewLine;
 
     loop {
+        #[cfg(avra_rs_verif)]
+        crate::verif_hook::yield_point(7);
         if let Some((line_num, line)) = skip(iter, context, next_item) {
             next_item = NextItem::NewLine; // clear conditional flag to typical state
             let line_num = line_num + 1;
